@@ -206,32 +206,41 @@ fn c16_meta() -> CheckMeta {
 
 macro_rules! zigzag_check {
     ($U:ty, $I:ty, $xs:expr, $out:expr, $name:expr) => {{
-        for x in $xs {
-            let x: $I = x;
-            $out.cov.evaluations += 1;
-            let nat: $U = x.to_nat();
-            // formula: x >= 0 -> 2x ; x < 0 -> -2x-1 = 2*(!x)+1
-            let want: $U = if x >= 0 { (x as $U) << 1 } else { (((!x) as $U) << 1) | 1 };
-            if nat != want {
-                $out.violations.push(v("C17", "zigzag", $name.into(), "to_nat", "value", format!("{}::to_nat({}) = {} expected {}", $name, x, nat, want), json!({"kind": "none"})));
-                break;
+        // a panic inside a conversion (e.g. an arithmetic overflow in a build with overflow checks) is a
+        // finding about the value being converted, not a failure of the harness
+        let mut last: $I = 0;
+        let r = std::panic::catch_unwind(std::panic::AssertUnwindSafe(|| {
+            for x in $xs {
+                let x: $I = x;
+                last = x;
+                $out.cov.evaluations += 1;
+                let nat: $U = x.to_nat();
+                // formula: x >= 0 -> 2x ; x < 0 -> -2x-1 = 2*(!x)+1
+                let want: $U = if x >= 0 { (x as $U) << 1 } else { (((!x) as $U) << 1) | 1 };
+                if nat != want {
+                    $out.violations.push(v("C17", "zigzag", $name.into(), "to_nat", "value", format!("{}::to_nat({}) = {} expected {}", $name, x, nat, want), json!({"kind": "none"})));
+                    break;
+                }
+                let back: $I = nat.to_int();
+                if back != x {
+                    $out.violations.push(v("C17", "zigzag", $name.into(), "to_int", "value", format!("to_int(to_nat({})) = {}", x, back), json!({"kind": "none"})));
+                    break;
+                }
+                // the other direction on the same bit pattern
+                let n: $U = x as $U;
+                let i: $I = n.to_int();
+                let wanti: $I = if n & 1 == 0 { (n >> 1) as $I } else { !((n >> 1) as $I) };
+                if i != wanti || i.to_nat() != n {
+                    $out.violations.push(v("C17", "zigzag", $name.into(), "to_int", "value", format!("{}::to_int({}) = {} expected {}", $name, n, i, wanti), json!({"kind": "none"})));
+                    break;
+                }
+                if x < 0 || x > 100 {
+                    $out.cov.nontrivial += 1;
+                }
             }
-            let back: $I = nat.to_int();
-            if back != x {
-                $out.violations.push(v("C17", "zigzag", $name.into(), "to_int", "value", format!("to_int(to_nat({})) = {}", x, back), json!({"kind": "none"})));
-                break;
-            }
-            // the other direction on the same bit pattern
-            let n: $U = x as $U;
-            let i: $I = n.to_int();
-            let wanti: $I = if n & 1 == 0 { (n >> 1) as $I } else { !((n >> 1) as $I) };
-            if i != wanti || i.to_nat() != n {
-                $out.violations.push(v("C17", "zigzag", $name.into(), "to_int", "value", format!("{}::to_int({}) = {} expected {}", $name, n, i, wanti), json!({"kind": "none"})));
-                break;
-            }
-            if x < 0 || x > 100 {
-                $out.cov.nontrivial += 1;
-            }
+        }));
+        if let Err(p) = r {
+            $out.violations.push(v("C17", "zigzag", $name.into(), "to_nat/to_int", "panic", format!("converting {} (bit pattern {:#x}) of {} panicked: {}", last, last as $U, $name, crate::util::panic_msg(&p)), json!({"kind": "none"})));
         }
     }};
 }
